@@ -31,9 +31,13 @@
          slot - in particular a guard in an extension block that was linked after the pass loaded `extended_list_`.
     bookkeeping: `scan_rng scanExt_rng deref_ok busy_rng`.
 
-  Further down: `obj_step` / `obj_apply` (life cycle only moves forward), `Quiet` (stable), facts about single steps,
-  `PPlace` (no object is lost), `PAlias` (no two Guard objects share a slot; a free slot is nobody's), `Ahead` (the
-  slots a pass will still read) and `PRoom` (the retired chain always has room for the next push when RB >= 4).
+  The `Ahead` relations are kept OPAQUE for the steps of the other threads (`pinv_close`) and unfolded only for the steps
+  of the pass itself (`pinv_close_scan`): with the disjunctions inlined `grind` does not terminate in useful time.
+
+  `Algo/DHP/Facts.lean`: `obj_step` / `obj_apply` (life cycle only moves forward), `Quiet` (stable), facts about single
+  steps, `PPlace` (no object is lost), `PAlias` (no two Guard objects share a slot; a free slot is nobody's), `aheadPC` /
+  `ahead_run` (the slots a pass will still read) and `PRoom` (the retired chain always has room for the next push when
+  RB >= 4).
 -/
 import CdsVerif.Algo.DHP.Model
 import CdsVerif.Props.C01
